@@ -210,6 +210,35 @@ func c01Build(tier mc.Tier) *c01Fixture {
 			add(e)
 		}
 	}
+	// a second certificate chain inside the *signed* header (COSE label 33 in the protected bucket, JWS "x5c" as a protected member),
+	// naming another signer with a key of the same size: correctly signed by the key of the chain in the unsigned header. Whatever
+	// chain the library reports, its leaf key must be the one that signed (the other signer's key never signed anything here).
+	for _, media := range []string{envenc.MediaJWS, envenc.MediaCOSE} {
+		for _, k := range keys[:2] {
+			other := map[string]string{"p256-e": "p256-f", "rsa2048-b": "rsa2048-c"}[k]
+			for _, n := range []int{2, 3} {
+				ch := c01Chain(f, k, n)
+				victim := ders(c01Chain(f, other, 2))
+				cont := content(envenc.SchemeX509, false)
+				if media == envenc.MediaCOSE {
+					cont.Ext = []envenc.ExtAttr{{Key: int64(33), Critical: false, Value: []any{victim[0], victim[1]}}}
+				} else {
+					cont.Ext = []envenc.ExtAttr{{Key: "x5c", Critical: false, Value: []any{base64.StdEncoding.EncodeToString(victim[0]), base64.StdEncoding.EncodeToString(victim[1])}}}
+				}
+				spec := newEnvSpec(media, cont, k)
+				spec.chain = ders(ch)
+				spec.unprot = envenc.Unprotected{Chain: spec.chain}
+				e := &c01Entry{name: fmt.Sprintf("%s/%s/chain%d/second-chain-of-another-signer-in-the-signed-header", mediaShort(media), kindOf(k), n), media: media, keyName: k, chain: ch, cont: cont, light: true, unprot: spec.unprot}
+				if media == envenc.MediaJWS {
+					spec.jwsOuter = func(p envenc.JWSParts) []byte { e.jws = p; return p.Assemble() }
+				} else {
+					spec.coseOuter = func(p envenc.COSEParts) []byte { e.cose = p; return p.Assemble() }
+				}
+				e.env, _, _, _ = spec.encode(&f.ledger, e.name)
+				add(e)
+			}
+		}
+	}
 	// leaf substitutes
 	for _, k := range keys[:2] {
 		other := map[string]string{"p256-e": "p256-f", "rsa2048-b": "rsa2048-c"}[k]
